@@ -708,6 +708,23 @@ def foreign_type_value(rng, fam):
     return rng.choice(pool)
 
 
+def inject_unknown(rng, d, names, values):
+    """A copy of dictionary d with 1-3 keys it does not have, each at a random position (so that unknown keys come first, last,
+    next to each other or apart); returns (new dict, the keys added)."""
+    names = [n for n in names if n not in d]
+    rng.shuffle(names)
+    add = names[:rng.choice([1, 1, 2, 3])]
+    items = list(d.items())
+    for k in add:
+        items.insert(rng.randrange(len(items) + 1), (k, rng.choice(values)))
+    if len(add) > 1 and rng.random() < 0.5:
+        # ... and next to each other for certain
+        rest = [(a, b) for a, b in items if a not in add]
+        at = rng.randrange(len(rest) + 1)
+        items = rest[:at] + [(a, b) for a, b in items if a in add] + rest[at:]
+    return dict(items), add
+
+
 FWD_KEYS = {'same': ('C03/{low}-unknown-key-rejected', 'C03/{low}-unknown-key-changes-fields'),
             'foreign': ('C03/unknown-key-value-type-asserted-before-field-lookup', 'C03/{low}-unknown-key-changes-fields'),
             'param': ('C03/unknown-key-collides-with-decoder-parameter',) * 2,
@@ -758,6 +775,8 @@ def fwd_jsonfield(ctx, rng, x, text):
             d2[k] = v
             if rng.random() < 0.3 and mode == 'same':
                 d2[rng.choice(UNKNOWN_KEYS) + '_2'] = same_type_value(rng, fam)
+                if rng.random() < 0.4:
+                    d2[rng.choice(UNKNOWN_KEYS) + '_3'] = same_type_value(rng, fam)
             items = list(d2.items())
             rng.shuffle(items)
             t2 = json.dumps(dict(items))
@@ -854,10 +873,10 @@ def sweep_gateway(ctx, rng, x):
         from fim.slivers.gateway import Gateway
         base = czd(Gateway.from_json(text).lab.__dict__)
         d = json.loads(text)
-        k = rng.choice([u for u in UNKNOWN_KEYS if u not in base])
-        d[k] = rng.choice(['x', '', '10.0.0.1'])
+        d, k = inject_unknown(rng, d, [u for u in UNKNOWN_KEYS if u not in base], ['x', '', '10.0.0.1'])
         t2 = json.dumps(d)
         ctx.count('fwd:Gateway')
+        ctx.count(f'fwd-unknown-keys:{len(k)}')
         ctx.seen(['fwd', 'Gateway', t2], True)
         w2 = {'kind': 'fwd-gateway', 'text': short(t2), 'unknown_key': k}
         try:
@@ -906,17 +925,12 @@ def sweep_path(ctx, rng, x):
         levels = ['top'] + (['payload'] if x.type == PathRepresentationType.Path else [])
         for level in levels:
             d = json.loads(text)
-            k = rng.choice(UNKNOWN_KEYS + ['strict2', 'a2z2', 'hops'])
-            v = rng.choice(['x', 1, None, True, ['a'], {'n': 1}])
-            tgt = d if level == 'top' else d['payload']
-            if k in tgt:
-                continue
-            tgt[k] = v
-            if rng.random() < 0.5:        # unknown key first
-                if level == 'top':
-                    d = {k: v, **{a: b for a, b in d.items() if a != k}}
-                else:
-                    d['payload'] = {k: v, **{a: b for a, b in d['payload'].items() if a != k}}
+            vals = ['x', 1, None, True, ['a'], {'n': 1}]
+            if level == 'top':
+                d, k = inject_unknown(rng, d, UNKNOWN_KEYS + ['strict2', 'a2z2', 'hops'], vals)
+            else:
+                d['payload'], k = inject_unknown(rng, d['payload'], UNKNOWN_KEYS + ['strict2', 'a2z2', 'hops'], vals)
+            ctx.count(f'fwd-unknown-keys:{len(k)}')
             t2 = json.dumps(d)
             ctx.count(f'fwd:{fam}:{level}')
             ctx.seen(['fwd', fam, level, t2], True)
@@ -1033,11 +1047,10 @@ def sweep_maint(ctx, rng, x, how=None):
         with quiet():
             d = json.loads(text)
             n = rng.choice(sorted(d))
-            k = rng.choice(['note', 'contact', 'zz_future', 'State', ''])
-            d[n] = dict(d[n])
-            d[n][k] = rng.choice(['x', None, 1, ['a']])
+            d[n], k = inject_unknown(rng, d[n], ['note', 'contact', 'zz_future', 'State', '', 'ticket'], ['x', None, 1, ['a']])
             t2 = json.dumps(d)
             ctx.count('fwd:MaintenanceInfo:entry')
+            ctx.count(f'fwd-unknown-keys:{len(k)}')
             ctx.seen(['fwd', 'MaintenanceInfo', t2], True)
             w2 = {'kind': 'fwd-maintenance', 'text': short(t2), 'entry': short(n), 'unknown_key': k}
             try:
